@@ -235,6 +235,22 @@ def check_forms(case, rec):
             raise Violation("form-content", "form %s holds %r, described "
                             "matrix %r" % (form, snap["rows"], a.tolist()))
         tabs.append((form, t))
+        if n > 1 and form in ("csr", "csc", "coo", "csr_unsorted", "ndarray",
+                              "dict", "lists", "triples", "list_arrays"):
+            # the caller's input object stays the caller's: using it for a
+            # second table after the first one was edited in place must
+            # still give the described matrix
+            t.filter(list(obs[1:]), axis="observation", inplace=True)
+            t.transform(lambda v, i, md_: v * 0, inplace=True)
+            t2 = Table(data, list(obs), list(samp), md, None, **kw)
+            s2 = observe.snapshot(t2)
+            if s2["rows"] != a.tolist() or s2["obs"] != obs:
+                raise Violation("input-object-aliased", "a second table "
+                                "built from the same %s input object after "
+                                "the first was edited in place holds %r, "
+                                "described matrix %r" %
+                                (form, s2["rows"], a.tolist()))
+            tabs[-1] = (form, t2)
     for (f1, t1), (f2, t2) in zip(tabs, tabs[1:]):
         if not (t1 == t2) or not (t2 == t1) or (t1 != t2):
             raise Violation("forms-unequal", "tables built from %s and %s "
